@@ -31,7 +31,7 @@ pub mod codec_b {
     use elvis_core::{Control, Machine, Message, Protocol, Session};
     use hcommon::*;
     use std::collections::BTreeMap;
-    use std::sync::{Arc, Mutex};
+    use std::sync::{Arc, Mutex, OnceLock};
 
     pub const SUBS: [&str; 8] = [
         "c14-arp", "c14-dns", "c14-dhcp", "c14-rt-arp", "c14-rt-dns", "c14-rt-dhcp", "c14-dns-v0", "c14-dhcp-v0",
@@ -124,6 +124,27 @@ pub mod codec_b {
         pub bfile: Vec<u8>,
     }
 
+    /// The DNS name delimiter / DHCP string terminator are the only parts of the two Elvis-specific wire
+    /// formats that are a free choice of the code; they are read off the implementation's encoders (empty name,
+    /// default message) so that a consistent change of the literal is not reported, while an encoder/decoder
+    /// mismatch still breaks the round trip.
+    pub fn dl() -> u8 {
+        static D: OnceLock<u8> = OnceLock::new();
+        *D.get_or_init(|| DnsQuestion::build(DnsQuestion::new(vec![]))[0])
+    }
+    pub fn tm() -> u8 {
+        static T: OnceLock<u8> = OnceLock::new();
+        *T.get_or_init(|| *DhcpMessage::to_message(DhcpMessage::default()).unwrap().to_vec().last().unwrap())
+    }
+    /// some byte other than `x`
+    fn other(x: u8) -> u8 {
+        if x == 0x21 {
+            0x22
+        } else {
+            0x21
+        }
+    }
+
     /// RFC 826 packet layout for Ethernet/IPv4: htype, ptype, hlen, plen, oper, sha(6), spa(4), tha(6), tpa(4)
     pub fn spec_arp(v: &ArpV) -> Vec<u8> {
         let mut o = vec![];
@@ -164,11 +185,11 @@ pub mod codec_b {
             be16(&mut o, h);
         }
         o.extend_from_slice(&v.qname);
-        o.push(0x20);
+        o.push(dl());
         be16(&mut o, v.qtype);
         be16(&mut o, v.qclass);
         o.extend_from_slice(&v.name);
-        o.push(0x20);
+        o.push(dl());
         be16(&mut o, v.rtype);
         be16(&mut o, v.class);
         be32(&mut o, v.ttl);
@@ -190,9 +211,9 @@ pub mod codec_b {
         be16(&mut o, v.chaddr);
         o.push(v.mtype);
         o.extend_from_slice(&v.sname);
-        o.push(0);
+        o.push(tm());
         o.extend_from_slice(&v.bfile);
-        o.push(0);
+        o.push(tm());
         o
     }
 
@@ -201,12 +222,12 @@ pub mod codec_b {
         v.smac < (1 << 48) && v.tmac < (1 << 48) && (v.oper == 1 || v.oper == 2)
     }
     pub fn wf_dns(v: &DnsV) -> bool {
-        !v.qname.contains(&0x20) && !v.name.contains(&0x20) && v.rdlength as usize == v.rdata.len()
+        !v.qname.contains(&dl()) && !v.name.contains(&dl()) && v.rdlength as usize == v.rdata.len()
     }
     pub fn wf_dhcp(v: &DhcpV) -> bool {
         (1..=7).contains(&v.mtype)
-            && !v.sname.contains(&0)
-            && !v.bfile.contains(&0)
+            && !v.sname.contains(&tm())
+            && !v.bfile.contains(&tm())
             && std::str::from_utf8(&v.sname).is_ok()
             && std::str::from_utf8(&v.bfile).is_ok()
     }
@@ -789,8 +810,8 @@ pub mod codec_b {
                     2 => *rng.pick(&[0x00u8, 0x1f, 0x21, 0x7f, 0x80, 0xff, 0x2e, 0x61]),
                     _ => rng.range(0x21, 0x7e) as u8,
                 };
-                if b == 0x20 && !(allow_delim && rng.chance(1, 2)) {
-                    0x21
+                if b == dl() && !(allow_delim && rng.chance(1, 2)) {
+                    other(dl())
                 } else {
                     b
                 }
@@ -808,7 +829,7 @@ pub mod codec_b {
             5 => 16,
             _ => 4,
         };
-        let rdata: Vec<u8> = if rng.chance(1, 4) { vec![0x20; rdlen] } else { rng.bytes(rdlen) };
+        let rdata: Vec<u8> = if rng.chance(1, 4) { vec![dl(); rdlen] } else { rng.bytes(rdlen) };
         let rdlength = if wf_only || rng.chance(5, 6) { rdlen as u16 } else { biased(rng, 16) as u16 };
         let qname = gen_dns_name(rng, !wf_only);
         let name = if rng.chance(1, 2) { qname.clone() } else { gen_dns_name(rng, !wf_only) };
@@ -846,12 +867,15 @@ pub mod codec_b {
         let mut s = String::new();
         for _ in 0..len {
             if allow_nul && rng.chance(1, 12) {
-                s.push('\0');
+                s.push(if tm() < 0x80 { tm() as char } else { 'a' });
             } else if ascii_only {
                 s.push(rng.range(0x21, 0x7e) as u8 as char);
             } else {
                 s.push(*rng.pick(&CH));
             }
+        }
+        if !allow_nul {
+            s.retain(|c| c as u32 != tm() as u32);
         }
         s.into_bytes()
     }
@@ -920,7 +944,7 @@ pub mod codec_b {
         match rng.below(4) {
             0 => vec![0u8; n],
             1 => vec![0xff; n],
-            2 => vec![0x20; n],
+            2 => vec![dl(); n],
             _ => rng.bytes(n),
         }
     }
@@ -1010,8 +1034,8 @@ pub mod codec_b {
                 // delimiter games: none at all, delimiter inside a fixed field, empty names
                 let mut nodelim = b.clone();
                 for x in nodelim.iter_mut() {
-                    if *x == 0x20 {
-                        *x = 0x21;
+                    if *x == dl() {
+                        *x = other(dl());
                     }
                 }
                 ops.push(dec(&nodelim));
@@ -1020,7 +1044,7 @@ pub mod codec_b {
                 w.name.clear();
                 ops.push(dec(&spec_dns(&w)));
                 let mut w = v.clone();
-                w.qname.insert(w.qname.len() / 2, 0x20);
+                w.qname.insert(w.qname.len() / 2, dl());
                 ops.push(dec(&spec_dns(&w)));
                 // single-field mutations of the fixed-width fields
                 let q_off = 12 + v.qname.len() + 1;
@@ -1040,7 +1064,7 @@ pub mod codec_b {
                     let s = rng.pick(&table).clone();
                     ops.push(format!("qname {}", hex(&s)));
                     let mut w = v.clone();
-                    w.qname = s.iter().map(|x| if *x == 0x20 { 0x21 } else { *x }).collect();
+                    w.qname = s.iter().map(|x| if *x == dl() { other(dl()) } else { *x }).collect();
                     ops.push(dec(&spec_dns(&w)));
                 }
                 ops.push(format!("qname {}", hex(&v.qname)));
@@ -1058,7 +1082,7 @@ pub mod codec_b {
                 if case == 0 {
                     // every boundary sequence as server name and as boot file
                     for s in &table {
-                        if s.contains(&0) {
+                        if s.contains(&tm()) {
                             continue;
                         }
                         let mut w = v.clone();
@@ -1091,7 +1115,7 @@ pub mod codec_b {
                 }
                 // non-UTF-8 strings, in either field, with the other one valid / invalid / unterminated
                 for _ in 0..8 {
-                    let s: Vec<u8> = rng.pick(&table).iter().map(|x| if *x == 0 { 1 } else { *x }).collect();
+                    let s: Vec<u8> = rng.pick(&table).iter().map(|x| if *x == tm() { other(tm()) } else { *x }).collect();
                     let mut w = v.clone();
                     let which = rng.below(3);
                     if which != 1 {
@@ -1110,8 +1134,8 @@ pub mod codec_b {
                 // no terminator at all
                 let mut noterm = b.clone();
                 for x in noterm.iter_mut().skip(30) {
-                    if *x == 0 {
-                        *x = 0x41;
+                    if *x == tm() {
+                        *x = other(tm());
                     }
                 }
                 ops.push(dec(&noterm));
@@ -1147,7 +1171,7 @@ pub mod codec_b {
         for _ in 0..12 {
             let rest = match rng.below(4) {
                 0 => vec![],
-                1 => vec![0x20, 0x00],
+                1 => vec![dl(), tm()],
                 _ => rbytes(rng, 1, 12),
             };
             let wf_only = rng.chance(5, 6);
@@ -1170,11 +1194,11 @@ pub mod codec_b {
                     let mut b = rng.bytes(12);
                     let n1 = rng.below(20) as usize;
                     b.extend(rng.bytes(n1));
-                    b.push(0x20);
+                    b.push(dl());
                     b.extend(rng.bytes(4));
                     let n2 = rng.below(20) as usize;
                     b.extend(rng.bytes(n2));
-                    b.push(0x20);
+                    b.push(dl());
                     b.extend(rng.bytes(8));
                     let l = rng.below(40) as usize;
                     b.push(0);
@@ -1186,9 +1210,9 @@ pub mod codec_b {
                     let mut b = rng.bytes(29);
                     b.push(rng.range(1, 7) as u8);
                     b.extend(gen_string(rng, false));
-                    b.push(0);
+                    b.push(tm());
                     b.extend(gen_string(rng, false));
-                    b.push(0);
+                    b.push(tm());
                     b.extend(rbytes(rng, 0, 4));
                     b
                 }
